@@ -177,7 +177,15 @@ def check(run):
             falls_to_loop_end = t.orelse and any(isinstance(y, ast.Call) and isinstance(y.func, ast.Attribute) and y.func.attr == "append"
                                                  for b in t.orelse for y in ast.walk(b)) and _is_last_in_loop(t) and \
                 not any(isinstance(y, (ast.Return, ast.Break, ast.Raise)) for b in h.body for y in ast.walk(b))
-            if not ((h.body and isinstance(h.body[-1], ast.Continue)) or falls_to_loop_end) or appends_here:
+            # ... or it stores a None sentinel and every append of the loop is guarded by `<target> is not None`
+            sentinel = False
+            if len(h.body) == 1 and isinstance(h.body[0], ast.Assign) and len(h.body[0].targets) == 1 and isinstance(h.body[0].targets[0], ast.Name) and \
+                    isinstance(h.body[0].value, ast.Constant) and h.body[0].value.value is None:
+                tv_ = h.body[0].targets[0].id
+                apps_ = [y for y in own_nodes(fc.node) if isinstance(y, ast.Call) and isinstance(y.func, ast.Attribute) and y.func.attr == "append"]
+                sentinel = bool(apps_) and all(any(isinstance(p_, ast.If) and norm_src(p_.test) in (f"{tv_} is not None", f"{tv_} != None") and
+                                                   any(y is z for b_ in p_.body for z in ast.walk(b_)) for p_ in common.parents(y)) for y in apps_)
+            if not ((h.body and isinstance(h.body[-1], ast.Continue)) or falls_to_loop_end or sentinel) or appends_here:
                 skip = False
         covers = bool(names & {"UnicodeEncodeError", "UnicodeError", "ValueError", "Exception", "BaseException"})
         app_after = any(isinstance(y, ast.Call) and isinstance(y.func, ast.Attribute) and y.func.attr == "append" for b in t.finalbody for y in ast.walk(b))
